@@ -2425,7 +2425,7 @@ impl TxParticipant {
         );
 
         // Store prepared state with undo log and checksums
-        self.prepared.write().insert(
+        let previous = self.prepared.write().insert(
             request.tx_id,
             PreparedTx {
                 tx_id: request.tx_id,
@@ -2437,6 +2437,15 @@ impl TxParticipant {
                 undo_checksums,
             },
         );
+
+        // A repeated prepare re-stamps only the keys it asks for with the new handle. Keys that
+        // only the earlier request locked still carry the old handle, which nothing refers to
+        // any more: release them now, or they stay locked until the lease expires.
+        if let Some(previous) = previous {
+            if previous.lock_handle != lock_handle {
+                self.locks.release_by_handle(previous.lock_handle);
+            }
+        }
 
         tracing::debug!(
             tx_id = request.tx_id,
